@@ -1,23 +1,14 @@
 (* More soundness lemmas over MiniJS: ToNullOrUndefinedWithSideEffects and
    JoinWithLeftAssociativeOp *)
-From V Require Import Common.Base C03.Num C03.Tree C03.MiniJS C03.TreeProofs.
+From V Require Import Common.Base C03.Num C03.Tree C03.MiniJS C03.Worlds C03.TreeProofs.
 
 Section Proofs2.
-  Variable unbound : Z -> bool.
-  Variable lenv : Z -> value.
-  Variable genv : Z -> option value.
-  Variable oracle : Z -> nat -> outcome.
-  Variable un_sem : unop -> value -> nat -> trace * outcome.
-  Variable bin_sem : binop -> value -> value -> nat -> trace * outcome.
+  Variable W : world.
 
-  Notation ev := (eval unbound lenv genv oracle un_sem bin_sem).
+  Notation ev := (eval W).
 
   (* ---- JoinWithLeftAssociativeOp: a op b, re-associated, evaluates the same ---- *)
   Definition short_circuit (op : binop) : Prop := op = BLogAnd \/ op = BLogOr \/ op = BNullish.
-
-  Lemma bind_assoc_eq : forall r k1 k2,
-    (forall t v, k1 t v = k2 t v) -> bind r k1 = bind r k2.
-  Proof. intros [[t [v|x]]|] k1 k2 H; cbn; auto. Qed.
 
   (* (a op b) op c  =  a op (b op c)  for the three short-circuit operators *)
   Lemma sc_assoc : forall op a b c tr, short_circuit op ->
@@ -46,7 +37,7 @@ Section Proofs2.
   Lemma comma_congr_r : forall a b b',
     (forall tr, ev tr b = ev tr b') -> forall tr, ev tr (EBin BComma a b) = ev tr (EBin BComma a b').
   Proof.
-    intros a b b' H tr. cbn [eval]. apply bind_assoc_eq. intros; apply H.
+    intros a b b' H tr. cbn [eval]. apply bind_ext. intros; apply H.
   Qed.
 
   Theorem join_left_assoc_equiv_all : forall op, short_circuit op ->
@@ -79,28 +70,45 @@ Section Proofs2.
      needs what the standard guarantees about the operators left abstract:
      + - ~ and the arithmetic / relational / equality operators never produce
      null or undefined *)
-  Hypothesis un_not_nullish : forall op v t tr' w, un_sem op v t = (tr', Val w) -> nullish w = false.
-  Hypothesis bin_not_nullish : forall op a b t tr' w, bin_sem op a b t = (tr', Val w) -> nullish w = false.
+  Hypothesis Wok : world_ok W.
 
-  Lemma apply_bin_nn : forall op tr a b tr' w,
-    apply_bin bin_sem op tr a b = Some (tr', Val w) -> nullish w = false.
+  Lemma numeric_nn : forall w, is_numeric w = true -> nullish w = false.
+  Proof. destruct w; cbn; congruence. Qed.
+
+  Lemma un_not_nullish : forall op v t tr' w, w_un W op v t = (tr', Val w) -> nullish w = false.
+  Proof. intros. apply numeric_nn. eapply ok_un_numeric; eauto. Qed.
+
+  Lemma bin_not_nullish : forall op a b t tr' w, (is_sem_binop op = true \/ op = BLooseEq) ->
+    w_bin W op a b t = (tr', Val w) -> nullish w = false.
   Proof.
-    intros op tr a b tr' w H. unfold apply_bin in H.
-    destruct (bin_sem op a b (length tr)) as [t2 o] eqn:E. inv H. eapply bin_not_nullish; eauto.
+    intros op a b t tr' w Hop H.
+    destruct (is_arith op) eqn:Ha.
+    - apply numeric_nn. eapply ok_arith; eauto.
+    - destruct (is_boolop op) eqn:Hb.
+      + pose proof (ok_boolop W Wok _ _ _ _ _ _ Hb H). destruct w; cbn in *; congruence.
+      + assert (op = BAdd) by (destruct Hop as [Hop|Hop]; [destruct op; cbn in *; congruence | subst; discriminate]).
+        subst op. pose proof (ok_add_prim W Wok _ _ _ _ _ H). destruct w; cbn in *; congruence.
   Qed.
 
-  Lemma binop_operands : forall op tr l r tr' w,
-    bind (ev tr l) (fun tr1 x => bind (ev tr1 r) (fun tr2 y => apply_bin bin_sem op tr2 x y)) = Some (tr', Val w) ->
+  Lemma apply_bin_nn : forall op tr a b tr' w, (is_sem_binop op = true \/ op = BLooseEq) ->
+    apply_bin W op tr a b = Some (tr', Val w) -> nullish w = false.
+  Proof.
+    intros op tr a b tr' w Hop H. unfold apply_bin in H.
+    apply eff_inv in H as (t2 & E & _). eapply bin_not_nullish; eauto.
+  Qed.
+
+  Lemma binop_operands : forall op tr l r tr' w, (is_sem_binop op = true \/ op = BLooseEq) ->
+    bind (ev tr l) (fun tr1 x => bind (ev tr1 r) (fun tr2 y => apply_bin W op tr2 x y)) = Some (tr', Val w) ->
     nullish w = false.
   Proof.
-    intros op tr l r tr' w H.
+    intros op tr l r tr' w Hop H.
     apply bind_inv in H as [(tr1 & x & Hx & Hk)|(x & Hx & Ho)]; [|discriminate].
     apply bind_inv in Hk as [(tr2 & y & Hy & Hk2)|(y & Hy & Ho)]; [|discriminate].
     eapply apply_bin_nn; eauto.
   Qed.
 
   Theorem to_nullish_sound_all : forall e tr tr' out b se,
-    wf_flags e ->
+    flags_ok W e ->
     ev tr e = Some (tr', out) -> to_nullish e = (b, se, true) ->
     (forall v, out = Val v -> nullish v = b) /\ (se = true -> tr' = tr /\ exists v, out = Val v).
   Proof.
@@ -120,13 +128,13 @@ Section Proofs2.
       destruct op; inv Hb; cbn [eval] in Hev; try discriminate.
       + (* UPos *) split; [|discriminate]. intros v0 E0. subst out.
         apply bind_inv in Hev as [(tr1 & x & Hx & Hk)|(x & Hx & Ho)]; [|discriminate].
-        destruct (un_sem UPos x (length tr1)) as [t2 o] eqn:E. inv Hk. eapply un_not_nullish; eauto.
+        apply eff_inv in Hk as (t2 & E & _). eapply un_not_nullish; eauto.
       + split; [|discriminate]. intros v0 E0. subst out.
         apply bind_inv in Hev as [(tr1 & x & Hx & Hk)|(x & Hx & Ho)]; [|discriminate].
-        destruct (un_sem UNeg x (length tr1)) as [t2 o] eqn:E. inv Hk. eapply un_not_nullish; eauto.
+        apply eff_inv in Hk as (t2 & E & _). eapply un_not_nullish; eauto.
       + split; [|discriminate]. intros v0 E0. subst out.
         apply bind_inv in Hev as [(tr1 & x & Hx & Hk)|(x & Hx & Ho)]; [|discriminate].
-        destruct (un_sem UCpl x (length tr1)) as [t2 o] eqn:E. inv Hk. eapply un_not_nullish; eauto.
+        apply eff_inv in Hk as (t2 & E & _). eapply un_not_nullish; eauto.
       + (* UNot *) split; [|discriminate]. intros v0 E0. subst out.
         apply bind_inv in Hev as [(tr1 & x & Hx & Hk)|(x & Hx & Ho)]; [|discriminate]. inv Hk. reflexivity.
       + (* UVoid *) split; [|discriminate]. intros v0 E0. subst out.
@@ -134,21 +142,23 @@ Section Proofs2.
       + (* UTypeof *)
         destruct se.
         * destruct (Hty eq_refl eq_refl) as (r & c & m & ->).
-          destruct (unbound r); [destruct (genv r)|]; inv Hev;
+          destruct (w_unbound W r); [destruct (w_genv W r)|]; inv Hev;
             (split; [intros v0 E0; inv E0; reflexivity | eauto]).
         * split; [|discriminate].
           intros v0 E0. subst out.
           destruct e; try (apply bind_inv in Hev as [(tr1 & x & Hx & Hk)|(x & Hx & Ho)]; [inv Hk; reflexivity | discriminate]).
-          destruct (unbound ref); [destruct (genv ref)|]; inv Hev; reflexivity.
+          destruct (w_unbound W ref); [destruct (w_genv W ref)|]; inv Hev; reflexivity.
     - (* EBin *)
       destruct Hwf as [Hwl Hwr].
       destruct op; cbn [eval is_sem_binop] in Hev; try discriminate;
-        try (inv Hb; split; [|discriminate]; intros v0 E0; subst out; eapply binop_operands; exact Hev).
+        try (inv Hb; split; [|discriminate]; intros v0 E0; subst out; eapply binop_operands; [|exact Hev]; auto).
       + (* BAdd: the symbol special case throws, otherwise abstract *)
         inv Hb. split; [|discriminate]. intros v0 E0. subst out.
         apply bind_inv in Hev as [(tr1 & x & Hx & Hk)|(x & Hx & Ho)]; [|discriminate].
         apply bind_inv in Hk as [(tr2 & y & Hy & Hk2)|(y & Hy & Ho)]; [|discriminate].
-        destruct x, y; try discriminate; eapply apply_bin_nn; eauto.
+        unfold add_values in Hk2.
+        destruct (is_object x || is_object y); [eapply apply_bin_nn; [|exact Hk2]; auto|].
+        destruct x, y; try discriminate; (eapply apply_bin_nn; [|exact Hk2]; auto).
       + (* BLooseNe *)
         inv Hb. split; [|discriminate]. intros v0 E0. subst out.
         unfold neg_outcome in Hev.
@@ -173,19 +183,18 @@ Section Proofs2.
         destruct (IHe2 _ _ _ _ _ Hwr Hk eq_refl) as [H1 _]. apply H1. reflexivity.
     - (* EArray *)
       inv Hb. split; [|discriminate]. intros v0 E0. subst out.
-      destruct items; cbn in Hev; [inv Hev; reflexivity | discriminate].
+      rewrite eval_array_eq in Hev.
+      apply lbind_inv in Hev as [(tr1 & vs & _ & Hk)|(x & _ & Ho)]; [inv Hk; reflexivity | discriminate].
     - (* EObject *)
       inv Hb. split; [|discriminate]. intros v0 E0. subst out.
-      destruct props as [|[[[k c] key] val] props]; cbn [eval] in Hev; [inv Hev; reflexivity|].
-      destruct k; try discriminate. destruct c; try discriminate. destruct props; try discriminate.
-      apply bind_inv in Hev as [(tr1 & x & Hx & Hk)|(x & Hx & Ho)]; [|discriminate].
-      destruct x; try discriminate;
-        (apply bind_inv in Hk as [(tr2 & y & Hy & Hk2)|(y & Hy & Ho)]; [inv Hk2; reflexivity | discriminate]).
+      rewrite eval_object_eq in Hev. apply props_value in Hev. subst v0. reflexivity.
     - (* EAnnot *)
       destruct (to_nullish e) as [[b' se'] ok'] eqn:Hte. inv Hb.
-      cbn [eval] in Hev. destruct removable; [discriminate|].
-      cbn [wf_flags] in Hwf. exact (IHe _ _ _ _ _ Hwf Hev eq_refl).
+      cbn [eval] in Hev. cbn [flags_ok] in Hwf. destruct Hwf as [Hpure Hwf].
+      destruct (IHe _ _ _ _ _ Hwf Hev eq_refl) as [H1 H2]. split; [exact H1|].
+      intros Hs. destruct removable; [|exact (H2 Hs)].
+      destruct (Hpure eq_refl tr) as [v Hv]. rewrite Hv in Hev. inv Hev. eauto.
     - (* EInlinedEnum *)
-      cbn [eval] in Hev. cbn [wf_flags] in Hwf. exact (IHe _ _ _ _ _ Hwf Hev Hb).
+      cbn [eval] in Hev. cbn [flags_ok] in Hwf. exact (IHe _ _ _ _ _ Hwf Hev Hb).
   Qed.
 End Proofs2.
